@@ -1,5 +1,5 @@
 '''C01 - a task never starts before its dependencies finished and published.'''
-from ..rules import sched_rel, sched_worker
+from ..rules import sched_rel, sched_worker, depgraph
 
 ID = 'C01'
 CLAIM = '''
@@ -27,7 +27,9 @@ with the roles bound by argument position.
 GRAPH-WHOLE - the graphs that supply the dependencies to the decision are
 the job's own, in the scheduler and inside the backend (never re-bound to a
 pruned / transitively reduced copy).
-BACKEND-STATELESS - an attribute of the backend filled while scheduling is
+SWAP-SEM - DepGraph.remove_node (used by Scheduler through flatten / graft)
+keeps every edge between the remaining nodes (index-class interpretation,
+see C16). BACKEND-STATELESS - an attribute of the backend filled while scheduling is
 reset by execute_tasks (nothing of one run decides in the next).
 ENQ-INPUTS - no argument bound to the decision before the atomic region is
 computed from the environment (no status / clock read hoisted out of it).
@@ -50,6 +52,7 @@ def check(ctx):
     ctx.run(sched_rel.check_graph_rebound)
     ctx.run(sched_rel.check_decision_inputs)
     ctx.run(sched_worker.check_backend_stateless)
+    ctx.run(depgraph.check_swap_sem)
 
 
 from ..variants import sched as _v   # noqa: E402
